@@ -233,11 +233,16 @@ def RExp.eval (vl vr : Value F) : RExp → Outcome (Value F)
     | _, _ => .err
   | .unknown _ => .err
 
+/-- `right == 0` for an integer or duration operand. -/
+def isZeroV : Value F → Bool
+  | .int b => b == 0
+  | .dur b => b == 0
+  | _ => false
+
 /-- The computation part of an entry once both operands have been evaluated (zero guard, result expression,
 result field). -/
 def Entry.compute (e : Entry) (vl vr : Value F) : Outcome (Value F) :=
-  let isZero : Bool := match vr with | .int b => b == 0 | .dur b => b == 0 | _ => false
-  if e.zeroGuard && isZero then .err else
+  if e.zeroGuard && isZeroV vr then .err else
   match e.rexp.eval ops reMatch vl vr with
   | .ok v => if v.ty = e.res then .ok v else .err
   | o => o
